@@ -12,6 +12,8 @@ import (
 	"net"
 	"net/http"
 	"os"
+	"runtime"
+	"strings"
 	"sync"
 	"time"
 
@@ -29,11 +31,20 @@ import (
 // route.GetTable(). A panic in the update goroutine ends the process, exactly as in production (nothing here
 // recovers). Nothing changes the behaviour of a normal fabio process.
 //
-//	{"op":"reset"}                          fresh loop (fresh local state), empty table
+//	{"op":"reset","fmt":F,"via":V,"text":T|"hex":H}
+//	                                        fresh loop (fresh local state), empty table; F = log.routes.format of
+//	                                        this session (logRoutes runs on the update goroutine); V = "static" or
+//	                                        "file": the session's backend is made by the REAL initBackend from
+//	                                        registry.static.routes = T / a routes file with content T, and the reply
+//	                                        comes when the loop has processed what that backend delivered
 //	{"op":"svc"|"man","text":T|"hex":H,"n":k}  deliver the update k times (default 2: the second send returns
 //	                                        only when the loop has finished processing the first)
 //	{"op":"poll","status":200,"body":B|"hex":H,"drop":false}   answer the custom backend's next poll
 //	{"op":"dump"}
+//
+// Every reply also carries "registered": the arguments of registry.Default.Register made by the loop of this
+// session so far, consecutive equal calls collapsed (an update that is delivered twice is registered twice when
+// its text was rejected).
 
 type verifC02Cmd struct {
 	Op     string `json:"op"`
@@ -43,6 +54,8 @@ type verifC02Cmd struct {
 	N      int    `json:"n"`
 	Status int    `json:"status"`
 	Drop   bool   `json:"drop"`
+	Fmt    string `json:"fmt"`
+	Via    string `json:"via"`
 }
 
 func (c *verifC02Cmd) payload() string {
@@ -57,9 +70,69 @@ func (c *verifC02Cmd) payload() string {
 }
 
 // verifC02Backend is the scripted registry backend: two unbuffered channels, everything else a no-op.
-type verifC02Backend struct{ svc, man chan string }
+type verifC02Backend struct {
+	svc, man chan string
+	rec      *verifC02Rec
+	bound    chan struct{} // closed when the loop has fetched the manual channel (it fetches the service channel first)
+	once     sync.Once
+	gid      string // goroutine of the loop bound to this backend
+}
 
-func (b *verifC02Backend) Register([]string) error                   { return nil }
+// verifC02Gid names the calling goroutine. registry.Default is a global: the loop of a REPLACED session that is
+// still finishing an iteration calls Register on the backend of the current session; only calls made by the
+// session's own loop are recorded.
+func verifC02Gid() string {
+	b := make([]byte, 64)
+	f := strings.Fields(string(b[:runtime.Stack(b, false)]))
+	if len(f) >= 2 {
+		return f[1]
+	}
+	return ""
+}
+
+func (b *verifC02Backend) bind() {
+	b.once.Do(func() {
+		b.gid = verifC02Gid()
+		close(b.bound)
+	})
+}
+
+func (b *verifC02Backend) record(s []string) {
+	<-b.bound
+	if verifC02Gid() == b.gid {
+		b.rec.add(s)
+	}
+}
+
+// verifC02Rec records the arguments of Register, consecutive equal calls collapsed.
+type verifC02Rec struct {
+	mu    sync.Mutex
+	calls [][]string
+}
+
+func (r *verifC02Rec) add(s []string) {
+	r.mu.Lock()
+	defer r.mu.Unlock()
+	c := append([]string{}, s...)
+	if n := len(r.calls); n > 0 && len(r.calls[n-1]) == len(c) {
+		same := true
+		for i := range c {
+			same = same && r.calls[n-1][i] == c[i]
+		}
+		if same {
+			return
+		}
+	}
+	r.calls = append(r.calls, c)
+}
+
+func (r *verifC02Rec) list() [][]string {
+	r.mu.Lock()
+	defer r.mu.Unlock()
+	return append([][]string{}, r.calls...)
+}
+
+func (b *verifC02Backend) Register(s []string) error                 { b.record(s); return nil }
 func (b *verifC02Backend) DeregisterAll() error                      { return nil }
 func (b *verifC02Backend) Deregister(string) error                   { return nil }
 func (b *verifC02Backend) ManualPaths() ([]string, error)            { return nil, nil }
@@ -67,9 +140,43 @@ func (b *verifC02Backend) ReadManual(string) (string, uint64, error) { return ""
 func (b *verifC02Backend) WriteManual(string, string, uint64) (bool, error) {
 	return false, nil
 }
-func (b *verifC02Backend) WatchServices() chan string    { return b.svc }
-func (b *verifC02Backend) WatchManual() chan string      { return b.man }
+func (b *verifC02Backend) WatchServices() chan string { return b.svc }
+func (b *verifC02Backend) WatchManual() chan string {
+	b.bind()
+	return b.man
+}
 func (b *verifC02Backend) WatchNoRouteHTML() chan string { return make(chan string) }
+
+// verifC02Relay stands between the loop and a REAL backend made by initBackend (static, file): what the real
+// backend delivers on its service channel is handed to the loop twice over an unbuffered channel (the second
+// hand-over returns when the loop has finished with the first), later scripted updates go the same way.
+type verifC02Relay struct {
+	registry.Backend
+	be    *verifC02Backend
+	first chan struct{}
+}
+
+func (r *verifC02Relay) Register(s []string) error { r.be.record(s); return r.Backend.Register(s) }
+func (r *verifC02Relay) WatchServices() chan string {
+	in := r.Backend.WatchServices()
+	go func() {
+		v := <-in
+		r.be.svc <- v
+		r.be.svc <- v
+		close(r.first)
+	}()
+	return r.be.svc
+}
+func (r *verifC02Relay) WatchManual() chan string {
+	r.be.bind()
+	in := r.Backend.WatchManual()
+	go func() {
+		for v := range in {
+			r.be.man <- v
+		}
+	}()
+	return r.be.man
+}
 
 type verifC02Poll struct {
 	status int
@@ -139,19 +246,46 @@ func verifC02Listen() string {
 	return verifC02Addr
 }
 
-func verifC02Start(mode string) *verifC02Session {
+func verifC02Start(mode string, c *verifC02Cmd) *verifC02Session {
 	s := &verifC02Session{}
 	route.SetTable(make(route.Table))
 	cfg := &config.Config{}
-	cfg.Log.RoutesFormat = os.Getenv("FABIO_VERIF_ROUTESFORMAT")
+	cfg.Log.RoutesFormat = c.Fmt
+	if cfg.Log.RoutesFormat == "" {
+		cfg.Log.RoutesFormat = os.Getenv("FABIO_VERIF_ROUTESFORMAT")
+	}
 	if cfg.Log.RoutesFormat == "" {
 		cfg.Log.RoutesFormat = "delta"
 	}
+	var relay *verifC02Relay
 	switch mode {
 	case "watchbackend":
 		cfg.Registry.Backend = "verif"
-		s.be = &verifC02Backend{svc: make(chan string), man: make(chan string)}
+		s.be = &verifC02Backend{svc: make(chan string), man: make(chan string), rec: &verifC02Rec{}, bound: make(chan struct{})}
 		registry.Default = s.be
+		if c.Via == "static" || c.Via == "file" {
+			// the real wiring of main(): initBackend makes the backend from the configuration
+			cfg.Registry.Backend = c.Via
+			cfg.Registry.Timeout = 5 * time.Second
+			cfg.Registry.Retry = 100 * time.Millisecond
+			if c.Via == "static" {
+				cfg.Registry.Static.Routes = c.payload()
+			} else {
+				dir, err := os.MkdirTemp("", "verif-c02-")
+				if err != nil {
+					log.SetOutput(os.Stderr)
+					log.Fatal("verif c02: tempdir: ", err)
+				}
+				defer os.RemoveAll(dir)
+				cfg.Registry.File.RoutesPath = dir + "/routes"
+				cfg.Registry.File.NoRouteHTMLPath = dir + "/noroute.html"
+				os.WriteFile(cfg.Registry.File.RoutesPath, []byte(c.payload()), 0o600)
+				os.WriteFile(cfg.Registry.File.NoRouteHTMLPath, nil, 0o600)
+			}
+			initBackend(cfg)
+			relay = &verifC02Relay{Backend: registry.Default, be: s.be, first: make(chan struct{})}
+			registry.Default = relay
+		}
 	case "custombackend":
 		s.arrived = make(chan struct{}, 1)
 		s.resp = make(chan verifC02Poll)
@@ -166,6 +300,15 @@ func verifC02Start(mode string) *verifC02Session {
 		registry.Default = be
 	}
 	go watchBackend(cfg, metrics.DiscardProvider{}, make(chan bool))
+	if s.be != nil {
+		// the loop fetches its channels from the GLOBAL registry.Default when its goroutine first runs: a session
+		// is handed out only when its loop is bound to its own backend (a loop that started late would otherwise
+		// bind to the backend of the NEXT session and two loops would share that session's channels)
+		<-s.be.bound
+	}
+	if relay != nil {
+		<-relay.first
+	}
 	return s
 }
 
@@ -177,7 +320,8 @@ func init() {
 	if os.Getenv("FABIO_VERIF_DEBUG") == "" {
 		log.SetOutput(io.Discard)
 	}
-	s := verifC02Start(mode)
+	// the first session starts with the first command (a "reset" starts the session it describes)
+	var s *verifC02Session
 	out := bufio.NewWriterSize(os.Stdout, 1<<20)
 	reply := func(v interface{}) {
 		b, _ := json.Marshal(v)
@@ -186,7 +330,11 @@ func init() {
 		out.Flush()
 	}
 	dump := func() interface{} {
-		return map[string]interface{}{"table": route.VerifDump(route.GetTable(), false)}
+		m := map[string]interface{}{"table": route.VerifDump(route.GetTable(), false)}
+		if s != nil && s.be != nil {
+			m["registered"] = s.be.rec.list()
+		}
+		return m
 	}
 	in := bufio.NewReaderSize(os.Stdin, 1<<20)
 	for {
@@ -196,9 +344,12 @@ func init() {
 			if jerr := json.Unmarshal(line, &c); jerr != nil {
 				reply(map[string]interface{}{"error": jerr.Error()})
 			} else {
+				if s == nil && c.Op != "reset" {
+					s = verifC02Start(mode, &verifC02Cmd{})
+				}
 				switch c.Op {
 				case "reset":
-					if s.resp != nil {
+					if s != nil && s.resp != nil {
 						verifC02Mu.Lock()
 						for k, v := range verifC02Sessions {
 							if v == s {
@@ -208,7 +359,7 @@ func init() {
 						verifC02Mu.Unlock()
 						close(s.resp) // the replaced session's pending poll is never answered
 					}
-					s = verifC02Start(mode)
+					s = verifC02Start(mode, &c)
 					reply(dump())
 				case "svc", "man":
 					if s.be == nil {
